@@ -353,7 +353,7 @@ def _kinds(failures):
     out = {}
     for f in failures:
         fp = f.get('fingerprint') or ['?']
-        k = ' '.join(str(x) for x in fp[:2])[:80]
+        k = ' '.join(str(x) for x in fp[:6])[:110]
         out[k] = out.get(k, 0) + 1
     return out
 
